@@ -385,26 +385,23 @@ def check_union_and_accessors(ctx, prog, I):
 
 
 def check_display_traps(ctx, prog):
-    ctx.rule('C10.4d', 'the printed diagram marks exactly the trap squares of TRAP_MASK')
-    fn = None
-    for k, f in prog.fns.items():
-        if f.get('trait_impl') == 'std::fmt::Display' and f.get('self_ty') == 'engine::GameState':
-            fn = k
-    if not ctx.anchor('impl Display for GameState', fn is not None):
+    ctx.rule('C10.4d', 'the printed diagram of the empty board marks exactly the trap squares of TRAP_MASK (x) and leaves every other '
+                       'square blank: the printer interpreted on the constant empty board')
+    from .rules_text import printed_empty_board
+    try:
+        cells, why = printed_empty_board(prog)
+    except Undecided as e:
+        cells, why = None, str(e)
+    if cells is None:
+        ctx.ob('printed empty board extracted', False)
+        ctx.finding('C10.4d', 'Display for GameState', 'trap-markers', 'cannot extract the printed empty board: %s' % why)
         return
-    consts = set()
-    for b in prog.fns[fn]['blocks']:
-        for s in b['st']:
-            rv = s.get('rv')
-            if rv and rv['k'] == 'bin' and rv['op'] == 'Eq':
-                for o in (rv['a'], rv['b']):
-                    if o['k'] == 'int' and o['ty'] == 'u8':
-                        consts.add(int(o['v']))
-    ok = consts == set(G.TRAPS)
-    ctx.ob('Display trap markers %s == traps %s' % (sorted(consts), sorted(G.TRAPS)), ok, sample=True)
+    marked = sorted(q for q, c in cells.items() if c != ' ')
+    ok = marked == sorted(G.TRAPS) and all(cells[q] == 'x' for q in G.TRAPS)
+    ctx.ob('Display marks %s on the empty board; traps are %s' % ([G.name(i) for i in marked], [G.name(i) for i in sorted(G.TRAPS)]), ok, sample=True)
     if not ok:
-        ctx.finding('C10.4d', fn, 'trap-markers', 'diagram marks squares %s as traps; the traps are %s'
-                    % ([G.name(i) for i in sorted(consts) if i < 64], [G.name(i) for i in sorted(G.TRAPS)]))
+        ctx.finding('C10.4d', 'Display for GameState', 'trap-markers', 'the empty board prints non-blank cells at %s (%s); the traps are %s'
+                    % ([G.name(i) for i in marked], sorted(set(cells[q] for q in marked)), [G.name(i) for i in sorted(G.TRAPS)]))
 
 
 # ------------------------------------------------------------------------------------------------ C13
